@@ -573,7 +573,7 @@ fn main() {
 
     // 1. every small n (single shard: the maximum shard is n)
     let small_max = ctx.scale(200, 2000, 20_000);
-    let nrand_small = ctx.scale(200, 2000, 5000);
+    let nrand_small = ctx.scale(200, 4000, 10_000);
     for n in 0..=small_max {
         for v in 0..4 {
             // every third n is first set up for a different (large or small) expected number of keys
@@ -649,7 +649,7 @@ fn main() {
     }
 
     // 3. random rounds
-    let rounds = ctx.scale(50, 40_000, 2_000_000);
+    let rounds = ctx.scale(50, 200_000, 5_000_000);
     let nrand_rounds = ctx.scale(100, 3000, 10_000);
     let mut rng = ctx.rng(16);
     for _ in 0..rounds {
